@@ -58,8 +58,9 @@ structure Facts where
 
 /-- `IsEntrypointNode` on a call instruction: the identifiers handed to the predicate (the Go code stops
 at the first one accepted; as a disjunction that is `List.any`).  `withPtr`: a pointer result is passed.
-`aliasPrefix`: `FindValuePackage` renders the package of an alias label with `ssa.Package.String()`, i.e.
-"package <path>" — the prefix is observed from the real identifiers on every run ("" once the path is used). -/
+`aliasPrefix`: `FindValuePackage` returns the package *path* of an alias label (prefix ""); before the repair of
+commit 95e1c24 it rendered it with `ssa.Package.String()`, i.e. "package <path>".  The prefix is observed from the
+real identifiers on every run and must be "". -/
 def entryCids (withPtr : Bool) (aliasPrefix : String) (f : Facts) : List CodeId :=
   match f.kind with
   | .go | .defer => []          -- no case for *ssa.Go / *ssa.Defer in the type switch
@@ -163,7 +164,7 @@ structure Site where
   ifaceType : String := ""       -- invoke: `types.TypeString` of the interface type
   addrTaken : Bool := false      -- static function that is also used as a value somewhere
   wrapperName : String := ""     -- bound / thunk / generic instance: name of the synthetic function
-  aliasPrefix : String := "package "   -- see `entryCids`
+  aliasPrefix : String := ""   -- see `entryCids`; "package " before commit 95e1c24
   deriving DecidableEq, Repr, Inhabited
 
 /-- x/tools SSA form of every call form (checked against the dump of the real SSA for every site) -/
